@@ -98,8 +98,10 @@ type attempts struct {
 	issues  []string
 	cancel  context.CancelFunc
 	wg      sync.WaitGroup
-	ncond   int // loop-condition evaluations so far
-	epoch   int // subscription round of the pipeline (mode twice)
+	ncond   int           // loop-condition evaluations so far
+	epoch   int           // subscription round of the pipeline (mode twice)
+	delay   time.Duration // RetryConfig.Delay of the case (0 = none): a retry is subscribed no sooner than this after the failure
+	failAt  time.Time     // when the last attempt failed
 }
 
 // decoy is a source that must never be subscribed.
@@ -142,6 +144,11 @@ func (a *attempts) source(fixed int) ro.Observable[any] {
 		if a.live != 0 {
 			a.issues = append(a.issues, fmt.Sprintf("attempt %d subscribed while %d earlier attempt(s) were still live (not over and released)", n, a.live))
 		}
+		if a.delay > 0 && !a.failAt.IsZero() {
+			if gap := time.Since(a.failAt); gap < a.delay { // a lower bound only: load can make a retry later, never earlier
+				a.issues = append(a.issues, fmt.Sprintf("attempt %d subscribed %v after the previous attempt failed, RetryConfig.Delay is %v", n, gap, a.delay))
+			}
+		}
 		a.live++
 		a.mu.Unlock()
 		play := func() {
@@ -154,6 +161,9 @@ func (a *attempts) source(fixed int) ro.Observable[any] {
 			}
 			switch oc.End {
 			case "E":
+				a.mu.Lock()
+				a.failAt = time.Now()
+				a.mu.Unlock()
 				dest.ErrorWithContext(ctx, attemptErr[n])
 			case "O":
 				// never ends: the subscription stays open until somebody releases it
@@ -223,6 +233,9 @@ func buildResubOp(c *RCase, a *attempts) (opFn, ro.Observable[any], error) {
 		return ro.Retry[any](), src, nil
 	case "RetryWithConfig":
 		return ro.RetryWithConfig[any](ro.RetryConfig{MaxRetries: uint64(c.O.M), ResetOnSuccess: c.O.R}), src, nil
+	case "RetryWithConfigDelay":
+		a.delay = 3 * time.Millisecond
+		return ro.RetryWithConfig[any](ro.RetryConfig{MaxRetries: uint64(c.O.M), ResetOnSuccess: c.O.R, Delay: a.delay}), src, nil
 	case "RepeatWith":
 		return ro.RepeatWith[any](int64(c.O.M)), src, nil
 	case "DoWhile":
@@ -306,6 +319,7 @@ func ReplayResub(idx int, c *RCase, mode string, out *[]Mismatch) {
 			a.mu.Lock()
 			a.started, a.live, a.issues, a.ncond = 0, 0, nil, 0
 			a.epoch++
+			a.failAt = time.Time{} // a new subscription of the pipeline: its first attempt waits for nothing
 			a.mu.Unlock()
 		}
 		if !replayResubRound(c, a, o, base, mode, add) {
